@@ -123,6 +123,7 @@ def run(chk):
                f"MSbar mass decoupling: up*down - 1 starts at a^{info.get('lowest_power')} instead of a^4",
                where=fd.where, data={"witness": info}, how="series over F_p")
     _applied_pair(chk, src)
+    _applied_mass_pair(chk, src)
     chk.floor("obligations", n_ob, 32 + 2 + 2 + 1)
     chk.note(files=["src/eko/evolution_operator/quad_ker.py", "src/eko/couplings.py", "src/eko/msbar_masses.py"], obligations=n_ob)
     chk.explanation = "Inverse relations decided as identities / valuations for symbolic non-commuting matrices and coefficients."
@@ -182,3 +183,50 @@ def _applied_pair(chk, src):
                        f"constants depend on it, so otherwise down(up(a)) != a at the order implemented)", where=fa.where, instance=f"{scheme},{nl}",
                        how="PE of Couplings.a with recording coefficient functions")
     chk.floor("thresholds x schemes", n, 6)
+
+
+def _applied_mass_pair(chk, src):
+    """The mass decoupling as APPLIED by msbar_masses.evolve: crossing a threshold upwards and crossing it downwards must be series in
+    ONE coupling (the one with more flavours at the matching scale) - only then do the two tables, which are each other's series
+    inverse, compose to the identity through the implemented order.  evolve is evaluated with a recording coupling object that
+    answers with one symbol per flavour number, the running kernel replaced by 1, matching ratio k != 1 kept symbolic in the log."""
+    from fractions import Fraction
+
+    from ..pe import PE, Opaque, PERaise
+
+    MM = "eko.msbar_masses"
+    fev = src.func(f"{MM}.evolve")
+
+    class SC(Opaque):
+        def __init__(self, order):
+            self.order = (order, 0)
+            self.atlas = Opaque()
+            self.atlas.walls = [0, Fraction(10), Fraction(100), Fraction(1000), float("inf")]
+
+        def a(self, q2, nf=None):
+            return (dag.sym(f"as_nf{nf}"), 0)
+
+    for order in (3, 4):
+        outs = {}
+        for direction, (q_from, nf_from, q_to, nf_to) in (("up", (Fraction(50), 4, Fraction(150), 5)), ("down", (Fraction(150), 5, Fraction(50), 4))):
+            pe = PE(src)
+            pe.overrides[f"{MM}.ker_dispatcher"] = lambda p, a, k: 1
+            pe.ext["numpy.isclose"] = lambda p, a, k: False
+            pe.ext["numpy.log"] = lambda p, a, k: dag.sym("Lk")          # one symbol for the logarithm of the matching ratio
+            try:
+                outs[direction] = pe.call(fev.qname, [dag.sym("m2ref"), q_from, SC(order), [Fraction(1)] * 3, Fraction(1), q_to],
+                                          {"nf_ref": nf_from, "nf_to": nf_to})
+            except PERaise as e:
+                outs[direction] = None
+                chk.fail("applied-mass-decoupling-pair-is-inverse", fev.qname, f"order {order}, {direction}: evolve raises {e}", where=fev.where,
+                         instance=f"{order},{direction}")
+        if None in outs.values():
+            continue
+        prod = dag.mul(dag.div(dag.tonode(outs["up"]), dag.sym("m2ref")), dag.div(dag.tonode(outs["down"]), dag.sym("m2ref")))
+        ok, info = valuation_at_least([dag.sub(prod, 1)], {"as_nf4": 1, "as_nf5": 1}, order, chk.seed, 3)
+        used = sorted(dag.symbols(dag.tonode(outs["up"])) & {"as_nf4", "as_nf5"}), sorted(dag.symbols(dag.tonode(outs["down"])) & {"as_nf4", "as_nf5"})
+        chk.decide(ok, "applied-mass-decoupling-pair-is-inverse", fev.qname,
+                   f"order {order}: crossing the bottom threshold upwards expands in {used[0]}, downwards in {used[1]}; the product of the two applied "
+                   f"factors differs from 1 at order a^{info.get('lowest_power')} (required: not below a^{order}) - the upward and the downward mass "
+                   f"decoupling must be series in the same coupling to undo each other", where=fev.where, instance=str(order),
+                   data={"witness": info}, how="PE of evolve with a recording coupling + Laurent series over F_p")
